@@ -26,7 +26,7 @@ def signature(text):
         return "san:asan:%s:%s" % (m.group(1), fn[:60])
     m = re.search(r"runtime error: ([^\n]{0,80})", text)
     if m:
-        return "san:ubsan:" + re.sub(r"[-0-9.e+]+", "N", m.group(1))[:70]
+        return "san:ubsan:" + re.sub(r"\b\d[\d.]*\b", "N", m.group(1))[:70]
     m = re.search(r"Assertion '([^']*)' failed", text)
     if m:
         if "poisson" in text:
@@ -52,8 +52,25 @@ def run_batch(args):
         for f in os.listdir(d):
             if f.startswith(("asan", "ubsan")):
                 os.remove(os.path.join(d, f))
-        p = subprocess.run(["timeout", "-k", "3", "600", "/venv/bin/python", "-m", "harness.san_driver", libpath, jf, pf, str(start)],
-                           env=env, capture_output=True, text=True, cwd=util.VERIF)
+        # no pipes: the sanitizer's symbolizer child would keep them open after the driver has died
+        so, se = os.path.join(d, "stdout.txt"), os.path.join(d, "stderr.txt")
+        with open(so, "w") as fo, open(se, "w") as fe:
+            proc = subprocess.Popen(["timeout", "-k", "3", "900", "/venv/bin/python", "-m", "harness.san_driver", libpath, jf, pf, str(start)],
+                                    env=env, stdout=fo, stderr=fe, stdin=subprocess.DEVNULL, cwd=util.VERIF, start_new_session=True)
+            try:
+                proc.wait(timeout=960)
+            except subprocess.TimeoutExpired:
+                pass
+            try:
+                os.killpg(proc.pid, 9)          # whatever is left of that session (symbolizer, stuck driver)
+            except ProcessLookupError:
+                pass
+            proc.wait()
+
+        class _P:
+            returncode = proc.returncode
+            stderr = open(se, errors="replace").read()
+        p = _P()
         prog = open(pf).read().split("\n")
         done = "DONE" in prog
         last_begin = None
@@ -72,7 +89,7 @@ def run_batch(args):
         for f in os.listdir(d):
             if f.startswith(("asan", "ubsan")):
                 report += "\n" + open(os.path.join(d, f)).read()[:4000]
-        kind = "timeout" if p.returncode == 124 else "report"
+        kind = "timeout" if (p.returncode == 124 or "Timeout (0:00:30)!" in (p.stderr or "")) else "report"
         out.append((last_begin, kind, report))
         start = last_begin + 1
     return out
